@@ -1359,6 +1359,15 @@ static void run_ops(op_t *ops, int nops)
             signal(SIGXFSZ, SIG_IGN);
             if (setrlimit(RLIMIT_FSIZE, &rl) < 0) ev_error("setrlimit");
             break; }
+        case 'R': { /* descriptor limit of the calling program: args n = soft RLIMIT_NOFILE (-1: back to what it was). With 0 every
+                       open(), socket() and pipe() of the next call fails with EMFILE while the descriptors already open keep working */
+            static rlim_t saved; static int have;
+            struct rlimit rl; getrlimit(RLIMIT_NOFILE, &rl);
+            long n = (long) arg_ll(&op->a[0]);
+            if (n < 0) { if (have) rl.rlim_cur = saved; }
+            else { if (!have) { saved = rl.rlim_cur; have = 1; } rl.rlim_cur = (rlim_t) n; }
+            if (setrlimit(RLIMIT_NOFILE, &rl) < 0) ev_error("setrlimit nofile");
+            break; }
         case 'a': { /* ancestor rename: args distance from the leaf (1 = parent), new kernel name */
             int dist = arg_int(&op->a[0]);
             if (!g_chain || dist < 1 || dist > g_chain->n || g_chain->n - dist >= 32) { ev_error("bad ancestor"); break; }
